@@ -6,7 +6,11 @@
 //   (forward_project(ProjData&, image, subset_num, num_subsets, zero), forward_project(RelatedViewgrams&, sub-range),
 //    set_up / start_accumulating_in_new_target / back_project(ProjData, subset) / back_project(RelatedViewgrams, sub-range) /
 //    get_output / back_project(image, ProjData, subset)), ForwardProjectorByBinUsingRayTracing (on-the-fly Siddon),
-//   on ProjDataInMemory, for generated cylindrical and BlocksOnCylindrical geometries, TOF and non-TOF.
+//   on ProjDataInMemory, for generated cylindrical and BlocksOnCylindrical geometries, TOF and non-TOF;
+//   the same projectors called with ProjData SMALLER than the set-up geometry (fewer segments, trimmed axial/tangential ranges);
+//   images with a non-zero z origin and x/y-anisotropic voxels; pre-/post- data processors of set_input / get_output;
+//   ProjectorByBinPairUsingSeparateProjectors, PresmoothingForwardProjectorByBin, PostsmoothingBackProjectorByBin;
+//   on-the-fly projector with restrict_to_cylindrical_FOV true and false.
 //
 // Usage: c04_projectors <seed> <quick|thorough> <opsfile> <implfile>
 //   <opsfile>  one operation per line (protocol: see lean/Driver/C04.lean); the explicit matrix rows (hex floats), the
@@ -22,6 +26,10 @@
 #include "stir/recon_buildblock/BackProjectorByBinUsingProjMatrixByBin.h"
 #include "stir/recon_buildblock/ForwardProjectorByBinUsingRayTracing.h"
 #include "stir/recon_buildblock/ProjectorByBinPairUsingProjMatrixByBin.h"
+#include "stir/recon_buildblock/ProjectorByBinPairUsingSeparateProjectors.h"
+#include "stir/recon_buildblock/PresmoothingForwardProjectorByBin.h"
+#include "stir/recon_buildblock/PostsmoothingBackProjectorByBin.h"
+#include "stir/DataProcessor.h"
 #include "stir/recon_buildblock/ProjMatrixElemsForOneBin.h"
 #include "stir/recon_buildblock/DataSymmetriesForBins.h"
 #include "stir/ProjDataInMemory.h"
@@ -59,7 +67,7 @@ oracle(bool ok, const std::string& what)
   if (!ok)
     {
       ++g_fails;
-      if (g_fails <= 40)
+      if (g_fails <= 4000)
         std::fprintf(g_orc, "ORACLE-FAIL %s\n", what.c_str());
     }
 }
@@ -100,6 +108,75 @@ intlist(const std::vector<float>& v)
   return s;
 }
 
+// ------------------------------------------------------------------------------------------------ data processors
+
+// The harness' own DataProcessor (exact on small integers, so that the Lean model can follow it exactly):
+//   scale: image *= c;  smx: out[z][y][x] = in[x-1] + 2 in[x] + in[x+1] (missing neighbours = 0; symmetric, hence self-adjoint);
+//   fail: set_up returns Succeeded::no (apply then returns Succeeded::no and the projectors have to throw).
+class HProc : public DataProcessor<DiscretisedDensity<3, float>>
+{
+public:
+  enum Kind
+  {
+    scale,
+    smx,
+    fail
+  };
+  HProc(Kind k, float c_v = 1.F)
+      : kind(k),
+        c(c_v)
+  {}
+  std::string get_registered_name() const override { return "verif harness processor"; }
+  mutable long applied = 0;
+  std::string opname() const
+  {
+    if (kind == scale)
+      return "scale " + std::to_string((int)c);
+    return kind == smx ? "smx" : "fail";
+  }
+  // the same map on a flat vector in the harness' canonical order (x fastest), nx voxels per row
+  std::vector<float> on(const std::vector<float>& v, int nx) const
+  {
+    std::vector<float> o(v.size());
+    for (std::size_t i = 0; i < v.size(); ++i)
+      {
+        if (kind == scale)
+          o[i] = c * v[i];
+        else
+          {
+            const int x = int(i % nx);
+            o[i] = 2 * v[i] + (x > 0 ? v[i - 1] : 0.F) + (x + 1 < nx ? v[i + 1] : 0.F);
+          }
+      }
+    return o;
+  }
+
+protected:
+  Succeeded virtual_set_up(const DiscretisedDensity<3, float>&) override { return kind == fail ? Succeeded::no : Succeeded::yes; }
+  void virtual_apply(DiscretisedDensity<3, float>& out, const DiscretisedDensity<3, float>& in) const override
+  {
+    ++applied;
+    const IndexRange<3> r = in.get_index_range();
+    for (int z = r.get_min_index(); z <= r.get_max_index(); ++z)
+      for (int y = r[z].get_min_index(); y <= r[z].get_max_index(); ++y)
+        {
+          const int x0 = r[z][y].get_min_index(), x1 = r[z][y].get_max_index();
+          for (int x = x0; x <= x1; ++x)
+            out[z][y][x] = kind == scale ? c * in[z][y][x]
+                                         : 2 * in[z][y][x] + (x > x0 ? in[z][y][x - 1] : 0.F) + (x < x1 ? in[z][y][x + 1] : 0.F);
+        }
+  }
+  void virtual_apply(DiscretisedDensity<3, float>& data) const override
+  {
+    shared_ptr<DiscretisedDensity<3, float>> in(data.clone());
+    virtual_apply(data, *in);
+  }
+
+private:
+  Kind kind;
+  float c;
+};
+
 // ------------------------------------------------------------------------------------------------ geometry
 
 static shared_ptr<Scanner>
@@ -117,6 +194,20 @@ blocks_scanner(int N, int R, int tof_bins)
   s->set_scanner_geometry("BlocksOnCylindrical");
   s->set_up();
   return s;
+}
+
+// image grid: voxel z = the default of VoxelsOnCartesianGrid(proj_data_info, ...) divided by zoom_z, zooms in y and x,
+// origin a whole number of planes along z
+static shared_ptr<VoxelsOnCartesianGrid<float>>
+make_grid(const ProjDataInfo& pdi, float zoom_x, float zoom_y, int nxy, int nz, int zorigin_planes, float zoom_z = 1.F)
+{
+  shared_ptr<ExamInfo> ex(new ExamInfo);
+  const CartesianCoordinate3D<float> zooms(zoom_z, zoom_y, zoom_x);
+  VoxelsOnCartesianGrid<float> probe(ex, pdi, zooms, CartesianCoordinate3D<float>(0.F, 0.F, 0.F), CartesianCoordinate3D<int>(nz, nxy, nxy));
+  const float vz = probe.get_voxel_size().z();
+  shared_ptr<VoxelsOnCartesianGrid<float>> im(new VoxelsOnCartesianGrid<float>(
+      ex, pdi, zooms, CartesianCoordinate3D<float>(zorigin_planes * vz, 0.F, 0.F), CartesianCoordinate3D<int>(nz, nxy, nxy)));
+  return im;
 }
 
 struct World
@@ -289,16 +380,90 @@ make_world(World& w, vh::Rng& rng, int kind, bool thorough, bool even_views, boo
   const float frac = fracs[rng.range(0, 3)];
   const float zoom = w.blocks ? (rng.coin() ? 0.5F : 0.4F)
                               : sc->get_default_bin_size() * nxy / (2.F * sc->get_inner_ring_radius() * frac);
-  w.image = vh::make_image(*w.pdi, zoom, nxy, nz);
+  // image grid: z origin 0 or a whole number of planes off (the matrix and the symmetries accept exactly that), voxels
+  // square or x/y-anisotropic (the symmetries then drop the 90-degree operations)
+  static const int zorgs[] = { 0, 0, 0, 1, -1, 2 };
+  const int zorg = w.blocks ? 0 : zorgs[rng.range(0, 5)];
+  const bool aniso = !w.blocks && rng.range(0, 3) == 0;
+  w.image = make_grid(*w.pdi, zoom, aniso ? zoom * (rng.coin() ? 1.25F : 0.8F) : zoom, nxy, nz, zorg);
   w.exam.reset(new ExamInfo);
   w.exam->imaging_modality = ImagingModality::PT;
   w.image->set_exam_info(*w.exam);
   w.finish();
   std::ostringstream d;
   d << (w.blocks ? "blocks" : "cyl") << " N=" << N << " R=" << R << " span=" << span << " viewmash=" << mash << " views=" << views
-    << " tang=" << ntang << " tofmash=" << tofmash << " nxy=" << nxy << " nz=" << nz << " voxel=" << w.image->get_voxel_size().x() << " arccorr=" << arccorr;
+    << " tang=" << ntang << " tofmash=" << tofmash << " nxy=" << nxy << " nz=" << nz << " voxel=" << w.image->get_voxel_size().x() << ","
+    << w.image->get_voxel_size().y() << " zorigin_planes=" << zorg << " arccorr=" << arccorr;
   w.desc = d.str();
   return true;
+}
+
+// A ProjData geometry SMALLER than w's (so that `*set_up_info >= *smaller` holds): fewer segments (symmetric), a trimmed
+// tangential range (symmetric, containing 0, or arbitrary), axial ranges trimmed by one position at either end (the same
+// for +segment and -segment).  sw shares the image and has its own (smaller) canonical enumeration.
+static bool
+make_sub_world(const World& w, vh::Rng& rng, World& sw)
+{
+  shared_ptr<ProjDataInfo> p2(w.pdi->clone());
+  bool trimmed = false;
+  int ms = w.maxSeg;
+  if (w.maxSeg > 0 && -w.minSeg == w.maxSeg && rng.range(0, 2) != 0)
+    {
+      ms = rng.range(0, w.maxSeg - 1);
+      p2->reduce_segment_range(-ms, ms);
+      trimmed = true;
+    }
+  int t0 = w.minT, t1 = w.maxT;
+  const int mode = rng.range(0, 3);
+  if (mode <= 1 && w.maxT >= 2)
+    { // symmetric
+      t1 = rng.range(1, w.maxT - 1);
+      t0 = std::max(w.minT, -t1);
+    }
+  else if (mode == 2)
+    { // contains 0
+      t0 = rng.range(w.minT, 0);
+      t1 = rng.range(0, w.maxT);
+    }
+  else
+    { // anything
+      t0 = rng.range(w.minT, w.maxT);
+      t1 = rng.range(t0, w.maxT);
+    }
+  if (!trimmed && t0 == w.minT && t1 == w.maxT)
+    t1 = w.maxT - 1;
+  p2->set_min_tangential_pos_num(t0);
+  p2->set_max_tangential_pos_num(t1);
+  for (int s = 0; s <= std::min(ms, w.maxSeg); ++s)
+    {
+      int a0 = w.aMin(s), a1 = w.aMax(s);
+      if (s > 0 && (s < w.minSeg || -s < w.minSeg || w.aMin(-s) != a0 || w.aMax(-s) != a1))
+        continue;
+      if (a1 - a0 >= 2 && rng.range(0, 2) == 0)
+        ++a0;
+      if (a1 - a0 >= 1 && rng.range(0, 2) == 0)
+        --a1;
+      p2->set_min_axial_pos_num(a0, s);
+      p2->set_max_axial_pos_num(a1, s);
+      if (s > 0)
+        {
+          p2->set_min_axial_pos_num(a0, -s);
+          p2->set_max_axial_pos_num(a1, -s);
+        }
+    }
+  sw = w;
+  sw.pdi = p2;
+  sw.axMin.clear();
+  sw.axMax.clear();
+  sw.segOff.clear();
+  sw.finish();
+  std::ostringstream d;
+  d << " sub[seg " << sw.minSeg << ".." << sw.maxSeg << " tang " << sw.minT << ".." << sw.maxT << " ax";
+  for (int s = sw.minSeg; s <= sw.maxSeg; ++s)
+    d << " " << sw.aMin(s) << ".." << sw.aMax(s);
+  d << "]";
+  sw.desc = w.desc + d.str();
+  return *w.pdi >= *p2 && !(*w.pdi == *p2);
 }
 
 // ------------------------------------------------------------------------------------------------ matrices
@@ -529,6 +694,51 @@ run_setting(const World& w, const MSet& ms, vh::Rng& rng, bool thorough, int wid
   g_counts["row_sets"]++;
   g_counts["rows"] += w.nbins;
 
+  // ---- a ProjData geometry smaller than the set-up geometry, and the related-position lists for ITS ranges
+  World sw;
+  bool have_sub = false;
+  try
+    {
+      have_sub = make_sub_world(w, rng, sw);
+    }
+  catch (std::exception& e)
+    {
+      std::fprintf(g_orc, "NOTE smaller ProjData geometry could not be constructed (%s): %s\n", w.desc.c_str(), e.what());
+    }
+  oracle(have_sub, "ProjDataInfo::operator>= does not hold between the set-up geometry and a trimmed copy" + sw.desc);
+  std::vector<int> big;      // sub index -> index in the set-up geometry
+  std::vector<char> in_sub;  // membership flags over the set-up geometry
+  if (have_sub)
+    {
+      std::ostringstream op;
+      op << "sub " << sw.minSeg << " " << sw.maxSeg << " " << sw.minT << " " << sw.maxT;
+      for (int s = sw.minSeg; s <= sw.maxSeg; ++s)
+        op << " " << sw.aMin(s) << "," << sw.aMax(s);
+      emit(op.str(), "ok " + std::to_string(sw.nbins));
+      for (auto& bs : basics)
+        if (bs.second >= sw.minSeg && bs.second <= sw.maxSeg)
+          for (int k = sw.minK; k <= sw.maxK; ++k)
+            for (int t = sw.minT; t <= sw.maxT; ++t)
+              for (int a = sw.aMin(bs.second); a <= sw.aMax(bs.second); ++a)
+                {
+                  Bin bb(bs.second, bs.first, a, t, k);
+                  sym->find_basic_bin(bb);
+                  std::vector<AxTangPosNumbers> l;
+                  sym->get_related_bins_factorised(l, bb, sw.aMin(bs.second), sw.aMax(bs.second), sw.minT, sw.maxT);
+                  std::ostringstream o2;
+                  o2 << "rel2 " << bs.first << " " << bs.second << " " << k << " " << a << " " << t << relstr(l);
+                  emit(o2.str(), std::to_string(l.size()));
+                }
+      big.assign(sw.nbins, 0);
+      in_sub.assign(w.nbins, 0);
+      sw.for_bins([&](int s, int v, int k, int a, int t) {
+        big[sw.idx(s, v, k, a, t)] = w.idx(s, v, k, a, t);
+        in_sub[w.idx(s, v, k, a, t)] = 1;
+      });
+      g_counts["smaller_projdata_geometries"]++;
+      g_counts["smaller_projdata_bins"] += sw.nbins;
+    }
+
   // which subset does a (view, seg) belong to: via its basic pair (independent of find_basic_vs_nums_in_subset)
   auto basic_view_of = [&](int v, int s) {
     ViewSegmentNumbers vs(v, s);
@@ -564,6 +774,19 @@ run_setting(const World& w, const MSet& ms, vh::Rng& rng, bool thorough, int wid
   emit("img z" + intlist(z0), "ok " + std::to_string(w.nvox));
   emit("dat y" + intlist(y), "ok " + std::to_string(w.nbins));
   emit("dat p" + intlist(p), "ok " + std::to_string(w.nbins));
+  std::vector<float> ps, ys;
+  if (have_sub)
+    {
+      ps.resize(sw.nbins);
+      ys.resize(sw.nbins);
+      for (int j = 0; j < sw.nbins; ++j)
+        {
+          ps[j] = (float)rng.range(5, 9);
+          ys[j] = y[big[j]];
+        }
+      emit("dat ps" + intlist(ps), "ok " + std::to_string(sw.nbins));
+      emit("dat ys" + intlist(ys), "ok " + std::to_string(sw.nbins));
+    }
   shared_ptr<DiscretisedDensity<3, float>> X = w.make_img(x), X2 = w.make_img(x2), Z0 = w.make_img(z0);
   std::vector<float> xl(w.nvox); // 2x + x2
   for (int i = 0; i < w.nvox; ++i)
@@ -1136,6 +1359,362 @@ run_setting(const World& w, const MSet& ms, vh::Rng& rng, bool thorough, int wid
         emit(buf, hexlist(w.read_img(*im)));
         out();
       }
+
+      // the known class (see the whole-data check): the implementation does not compute the matrix product there;
+      // checks against the rows are not repeated for it, checks of the implementation against itself are
+      const bool known_class = w.blocks && w.tof && !cache;
+      auto out_img = [&]() {
+        shared_ptr<DiscretisedDensity<3, float>> o(w.image->get_empty_copy());
+        bck->get_output(*o);
+        return w.read_img(*o);
+      };
+
+      // ================= ProjData smaller than the geometry the projectors were set up with
+      if (have_sub)
+        {
+          const std::string wsub = sw.desc.substr(w.desc.size()) + " " + where;
+          auto forward_sub = [&](const std::vector<float>& start, const DiscretisedDensity<3, float>& img, int i, int n, bool zero,
+                                 std::vector<float>& out) {
+            ProjDataInMemory P(sw.exam, sw.pdi);
+            sw.fill(P, start);
+            try
+              {
+                fwd->forward_project(P, img, i, n, zero);
+              }
+            catch (...)
+              {
+                return false;
+              }
+            out = sw.read(P);
+            return true;
+          };
+          std::vector<float> Fs;
+          const bool okS = forward_sub(ps, *X, 0, 1, true, Fs);
+          emit("fwd2 Fs x ps 0 1 1", okS ? hexlist(Fs) : "err");
+          long bad = 0;
+          for (int j = 0; j < sw.nbins && okS && okF; ++j)
+            if (Fs[j] != F[big[j]])
+              ++bad;
+          oracle(okS && okF && bad == 0, "forward projection into a ProjData smaller than the set-up geometry differs from the restriction of the whole-data projection on "
+                                             + std::to_string(bad) + " of " + std::to_string(sw.nbins) + " bins" + wsub);
+          // a subset of the smaller data, with and without zeroing
+          const int n = V >= 2 ? rng.range(2, std::min(V, 4)) : 1, i = rng.range(0, n - 1);
+          for (int zero = 0; zero <= 1; ++zero)
+            {
+              std::vector<float> Ss;
+              const bool ok = forward_sub(ps, *X, i, n, zero != 0, Ss);
+              std::snprintf(buf, sizeof buf, "fwd2 Ss x ps %d %d %d", i, n, zero);
+              emit(buf, ok ? hexlist(Ss) : "err");
+              long frame_bad = 0, val_bad = 0;
+              if (ok && okF)
+                sw.for_bins([&](int s, int v, int k, int a, int t) {
+                  const int j = sw.idx(s, v, k, a, t);
+                  if ((basic_view_of(v, s) - w.minView) % n == i)
+                    {
+                      if (Ss[j] != F[big[j]])
+                        ++val_bad;
+                    }
+                  else if (Ss[j] != ((zero && n > 1) ? 0.F : ps[j]))
+                    ++frame_bad;
+                });
+              oracle(ok && okF && frame_bad == 0 && val_bad == 0,
+                     "forward_project(smaller ProjData, subset " + std::to_string(i) + "/" + std::to_string(n) + ", zero=" + std::to_string(zero)
+                         + "): " + std::to_string(val_bad) + " bins of the subset differ from the whole-data projection, " + std::to_string(frame_bad)
+                         + " bins outside the subset are not " + (zero && n > 1 ? "zero" : "unchanged") + wsub);
+            }
+          // back projection of the smaller data: = the transposed matrix product over its bins; adjoint to the forward projection
+          ProjDataInMemory Ys(sw.exam, sw.pdi);
+          sw.fill(Ys, ys);
+          bck->set_up(w.pdi, Z0);
+          emit("bsetup z", "ok");
+          bck->start_accumulating_in_new_target();
+          emit("bstart", "ok");
+          bck->back_project(Ys, 0, 1);
+          emit("bsub2 ys 0 1", "ok");
+          const std::vector<float> Bs = out_img();
+          emit("bout", hexlist(Bs));
+          std::vector<double> v, m;
+          std::vector<int> c;
+          R.ref_bck(y, in_sub, v, m, c);
+          long badb = 0;
+          for (int q = 0; q < w.nvox; ++q)
+            if (std::fabs(Bs[q] - v[q]) > 4 * EPS * (c[q] + 1) * m[q])
+              ++badb;
+          if (!known_class)
+            oracle(badb == 0, "back projection of a ProjData smaller than the set-up geometry differs from the transposed matrix product over its bins on "
+                                  + std::to_string(badb) + " voxels" + wsub);
+          if (okS)
+            {
+              const double l = dotd(Fs, ys), r = dotd(x, Bs), tol = adj_tol(in_sub, x, y);
+              std::snprintf(buf, sizeof buf, "adjoint on a smaller ProjData: <Ax,y>=%.9g <x,A'y>=%.9g tol=%.3g", l, r, tol);
+              oracle(std::fabs(l - r) <= tol, std::string(buf) + wsub);
+            }
+          // ... a subset of it, accumulated on top
+          bck->back_project(Ys, i, n);
+          std::snprintf(buf, sizeof buf, "bsub2 ys %d %d", i, n);
+          emit(buf, "ok");
+          const std::vector<float> Bs2 = out_img();
+          emit("bout", hexlist(Bs2));
+          std::vector<char> in_piece(w.nbins, 0);
+          const std::vector<char> in_subset = subset_piece(i, n);
+          for (int b = 0; b < w.nbins; ++b)
+            in_piece[b] = in_sub[b] && in_subset[b];
+          std::vector<double> v2, m2;
+          std::vector<int> c2;
+          R.ref_bck(y, in_piece, v2, m2, c2);
+          long badc = 0;
+          for (int q = 0; q < w.nvox; ++q)
+            if (std::fabs(double(Bs2[q]) - Bs[q] - v2[q]) > 8 * EPS * (c[q] + c2[q] + 2) * (m[q] + m2[q]))
+              ++badc;
+          if (!known_class)
+            oracle(badc == 0, "back projecting subset " + std::to_string(i) + "/" + std::to_string(n)
+                                  + " of a smaller ProjData on top of an earlier back projection does not add that subset's contribution on "
+                                  + std::to_string(badc) + " voxels" + wsub);
+          g_counts["smaller_projdata_runs"]++;
+        }
+
+      // ================= pre- and post- data processors (set_input / get_output)
+      {
+        const int nx = w.xmax - w.xmin + 1;
+        std::vector<float> xabs(x);
+        for (auto& q : xabs)
+          q = std::fabs(q);
+        for (int pk = 0; pk < 2; ++pk)
+          {
+            shared_ptr<HProc> P(new HProc(pk == 0 ? HProc::scale : HProc::smx, pk == 0 ? (float)rng.range(2, 3) : 1.F));
+            const std::string pw = " processor=" + P->opname() + " " + where;
+            fwd->set_pre_data_processor(P);
+            bck->set_post_data_processor(P);
+            emit("pre " + P->opname(), "ok");
+            emit("post " + P->opname(), "ok");
+            std::vector<float> FP;
+            const bool ok = forward(p, *X, 0, 1, true, FP);
+            emit("fwd FP x p 0 1 1", ok ? hexlist(FP) : "err");
+            oracle(w.read_img(*X) == x, "set_input with a pre-data-processor changed the caller's image" + pw);
+            oracle(P->applied == 1, "set_input applied the pre-data-processor " + std::to_string(P->applied) + " times" + pw);
+            const std::vector<float> px = P->on(x, nx);
+            std::vector<double> fv, fm;
+            R.ref_fwd(px, fv, fm);
+            long bad = 0;
+            for (int b = 0; b < w.nbins && ok; ++b)
+              if (std::fabs(FP[b] - fv[b]) > 4 * EPS * (R.rows[b].size() + 1) * fm[b])
+                ++bad;
+            if (!known_class)
+              oracle(ok && bad == 0, "forward projection with a pre-data-processor differs from the matrix product with the processed image on "
+                                         + std::to_string(bad) + " bins" + pw);
+            if (pk == 0 && ok && okF)
+              { // scaling processor: results scale
+                long badsc = 0;
+                const double cs = P->on(std::vector<float>(1, 1.F), 1)[0];
+                for (int b = 0; b < w.nbins; ++b)
+                  if (std::fabs(double(FP[b]) - cs * F[b]) > 4 * EPS * (R.rows[b].size() + 2) * cs * rfm[b])
+                    ++badsc;
+                oracle(badsc == 0, "forward projection with a scaling pre-data-processor is not the scaled projection on " + std::to_string(badsc) + " bins" + pw);
+              }
+            // back: the processor acts in get_output, on the copy handed out
+            bck->set_up(w.pdi, Z0);
+            emit("bsetup z", "ok");
+            bck->start_accumulating_in_new_target();
+            emit("bstart", "ok");
+            const long applied_before = P->applied;
+            bck->back_project(Y, 0, 1);
+            emit("bsub y 0 1", "ok");
+            oracle(P->applied == applied_before, "back_project applied the post-data-processor (it belongs to get_output)" + pw);
+            const std::vector<float> O1 = out_img();
+            emit("bout", hexlist(O1));
+            const std::vector<float> O2 = out_img();
+            emit("bout", hexlist(O2));
+            oracle(O1 == O2, "get_output twice gives different images: the post-data-processor disturbs the accumulation target" + pw);
+            const std::vector<float> PB = P->on(B, nx);
+            std::vector<double> v, m;
+            std::vector<int> c;
+            R.ref_bck(y, all_in, v, m, c);
+            std::vector<float> mf(m.begin(), m.end());
+            const std::vector<float> pm_ = P->on(mf, nx);
+            int cmax = 0;
+            for (int q : c)
+              cmax = std::max(cmax, q);
+            long badb = 0;
+            for (int q = 0; q < w.nvox; ++q)
+              if (std::fabs(double(O1[q]) - PB[q]) > 8 * EPS * (cmax + 5) * pm_[q] * 1.001)
+                ++badb;
+            oracle(badb == 0, "get_output with a post-data-processor differs from the processed back projection on " + std::to_string(badb) + " voxels" + pw);
+            if (ok)
+              {
+                const double l = dotd(FP, y), r = dotd(x, O1), tol = 4 * adj_tol(all_in, P->on(xabs, nx), y);
+                std::snprintf(buf, sizeof buf, "adjoint with a self-adjoint pre-/post- data processor: <A P x,y>=%.9g <x,P A'y>=%.9g tol=%.3g", l, r, tol);
+                oracle(std::fabs(l - r) <= tol, std::string(buf) + pw);
+              }
+            shared_ptr<DiscretisedDensity<3, float>> im(w.image->get_empty_copy());
+            im->fill(7.F);
+            bck->back_project(*im, Y, 0, 1);
+            emit("binto y 0 1", hexlist(w.read_img(*im)));
+            oracle(w.read_img(*im) == O1, "back_project(image, proj_data) with a post-data-processor differs from start; back_project; get_output" + pw);
+            g_counts["processor_runs"]++;
+          }
+        // a processor that fails: set_input and get_output have to throw
+        shared_ptr<HProc> Pf(new HProc(HProc::fail));
+        fwd->set_pre_data_processor(Pf);
+        emit("pre fail", "ok");
+        std::vector<float> FE;
+        const bool okE = forward(p, *X, 0, 1, true, FE);
+        emit("fwd E x p 0 1 1", okE ? hexlist(FE) : "err");
+        oracle(!okE, "forward_project went ahead although the pre-data-processor failed " + where);
+        bck->set_post_data_processor(Pf);
+        emit("post fail", "ok");
+        bool threw = false;
+        std::vector<float> OE;
+        try
+          {
+            OE = out_img();
+          }
+        catch (...)
+          {
+            threw = true;
+          }
+        emit("bout", threw ? "err" : hexlist(OE));
+        oracle(threw, "get_output went ahead although the post-data-processor failed " + where);
+        fwd->set_pre_data_processor(shared_ptr<DataProcessor<DiscretisedDensity<3, float>>>());
+        bck->set_post_data_processor(shared_ptr<DataProcessor<DiscretisedDensity<3, float>>>());
+        emit("pre none", "ok");
+        emit("post none", "ok");
+        std::vector<float> F0;
+        const bool ok0 = forward(p, *X, 0, 1, true, F0);
+        emit("fwd F0 x p 0 1 1", ok0 ? hexlist(F0) : "err");
+        oracle(ok0 && okF && F0 == F, "after removing the pre-data-processor the projection differs from the one before it was set " + where);
+      }
+
+      // ================= the other pair objects: ProjectorByBinPairUsingSeparateProjectors around a matrix forward and a matrix
+      // back projector (same matrix settings: a matched pair), and PresmoothingForwardProjectorByBin /
+      // PostsmoothingBackProjectorByBin around them with the self-adjoint stencil
+      if (cache)
+        {
+          const int nx = w.xmax - w.xmin + 1;
+          shared_ptr<ProjMatrixByBin> pm2 = make_matrix(ms, true, false);
+          shared_ptr<ForwardProjectorByBin> f2(new ForwardProjectorByBinUsingProjMatrixByBin(pm2));
+          shared_ptr<BackProjectorByBin> b2(new BackProjectorByBinUsingProjMatrixByBin(pm2));
+          ProjectorByBinPairUsingSeparateProjectors sep(f2, b2);
+          const bool oks = sep.set_up(w.pdi, w.image) == Succeeded::yes;
+          oracle(oks && sep.get_forward_projector_sptr() == f2 && sep.get_back_projector_sptr() == b2
+                     && sep.get_symmetries_used() != nullptr,
+                 "ProjectorByBinPairUsingSeparateProjectors::set_up failed or does not hand out the projectors it was given " + where);
+          if (oks)
+            {
+              ProjDataInMemory P(w.exam, w.pdi);
+              w.fill(P, p);
+              sep.get_forward_projector_sptr()->forward_project(P, *X, 0, 1, true);
+              const std::vector<float> F2 = w.read(P);
+              emit("fwd F2 x p 0 1 1", hexlist(F2));
+              shared_ptr<DiscretisedDensity<3, float>> im(w.image->get_empty_copy());
+              im->fill(3.F);
+              sep.get_back_projector_sptr()->back_project(*im, Y, 0, 1);
+              const std::vector<float> B2 = w.read_img(*im);
+              oracle(okF && F2 == F && B2 == B, "ProjectorByBinPairUsingSeparateProjectors (matrix forward + matrix back projector) differs from ProjectorByBinPairUsingProjMatrixByBin with the same matrix settings " + where);
+              const double l = dotd(F2, y), r = dotd(x, B2), tol = adj_tol(all_in, x, y);
+              std::snprintf(buf, sizeof buf, "adjoint, ProjectorByBinPairUsingSeparateProjectors: <Ax,y>=%.9g <x,A'y>=%.9g tol=%.3g ", l, r, tol);
+              oracle(std::fabs(l - r) <= tol, std::string(buf) + where);
+              g_counts["separate_projector_pairs"]++;
+            }
+          // pre-/post-smoothing projectors
+          shared_ptr<HProc> PS(new HProc(HProc::smx));
+          shared_ptr<ForwardProjectorByBin> f3(new ForwardProjectorByBinUsingProjMatrixByBin(make_matrix(ms, true, false)));
+          shared_ptr<BackProjectorByBin> b3(new BackProjectorByBinUsingProjMatrixByBin(make_matrix(ms, true, false)));
+          PresmoothingForwardProjectorByBin pres(f3, PS);
+          PostsmoothingBackProjectorByBin posts(b3, PS);
+          // set up with an image full of 1s: what is projected must be the image passed to forward_project, not this one
+          shared_ptr<DiscretisedDensity<3, float>> ones_img(w.image->get_empty_copy());
+          ones_img->fill(1.F);
+          pres.set_up(w.pdi, ones_img);
+          posts.set_up(w.pdi, ones_img);
+          std::vector<float> xabs(x);
+          for (auto& q : xabs)
+            q = std::fabs(q);
+          const std::vector<float> px = PS->on(x, nx);
+          std::vector<double> fv, fm;
+          R.ref_fwd(px, fv, fm);
+          ProjDataInMemory P(w.exam, w.pdi);
+          w.fill(P, p);
+          bool okp = true;
+          try
+            {
+              pres.forward_project(P, *X, 0, 1, true);
+            }
+          catch (...)
+            {
+              okp = false;
+            }
+          const std::vector<float> FS = w.read(P);
+          long bad = 0;
+          for (int b = 0; b < w.nbins; ++b)
+            if (std::fabs(FS[b] - fv[b]) > 4 * EPS * (R.rows[b].size() + 1) * fm[b])
+              ++bad;
+          std::vector<double> f1v, f1m;
+          R.ref_fwd(PS->on(std::vector<float>(w.nvox, 1.F), nx), f1v, f1m);
+          long same_as_setup_image = 0;
+          for (int b = 0; b < w.nbins; ++b)
+            if (std::fabs(FS[b] - f1v[b]) <= 4 * EPS * (R.rows[b].size() + 1) * f1m[b])
+              ++same_as_setup_image;
+          std::vector<double> f0v, f0m;
+          R.ref_fwd(std::vector<float>(w.nvox, 1.F), f0v, f0m);
+          long same_as_unsmoothed_setup_image = 0;
+          for (int b = 0; b < w.nbins; ++b)
+            if (std::fabs(FS[b] - f0v[b]) <= 4 * EPS * (R.rows[b].size() + 1) * f0m[b])
+              ++same_as_unsmoothed_setup_image;
+          std::snprintf(buf, sizeof buf,
+                        "PresmoothingForwardProjectorByBin::forward_project(proj_data, image): %ld of %d bins differ from the projection of the smoothed "
+                        "image (%ld bins equal the projection of the smoothed image given to set_up, %ld that of the image given to set_up) ",
+                        bad, w.nbins, same_as_setup_image, same_as_unsmoothed_setup_image);
+          if (okp && bad > 0 && same_as_unsmoothed_setup_image == w.nbins)
+            known_candidate("presmoothing-forward-projector:set_input-does-not-reach-the-original-projector",
+                            std::string(buf)
+                                + "[ForwardProjectorByBin::set_input stores the smoothed image in the wrapper, actual_forward_project forwards to "
+                                  "original_forward_projector_ptr->forward_project(viewgrams, ...), which uses the image the ORIGINAL projector got in set_up] "
+                                + where);
+          else
+            oracle(okp && bad == 0, std::string(buf) + where);
+          shared_ptr<DiscretisedDensity<3, float>> im(w.image->get_empty_copy());
+          im->fill(3.F);
+          bool okb = true;
+          try
+            {
+              posts.back_project(*im, Y, 0, 1);
+            }
+          catch (...)
+            {
+              okb = false;
+            }
+          const std::vector<float> BS = w.read_img(*im);
+          const std::vector<float> PB = PS->on(B, nx);
+          std::vector<double> v, m;
+          std::vector<int> c;
+          R.ref_bck(y, all_in, v, m, c);
+          std::vector<float> mf(m.begin(), m.end());
+          const std::vector<float> pmag = PS->on(mf, nx);
+          int cmax = 0;
+          for (int q : c)
+            cmax = std::max(cmax, q);
+          long badb = 0, zeros = 0;
+          for (int q = 0; q < w.nvox; ++q)
+            {
+              if (std::fabs(double(BS[q]) - PB[q]) > 8 * EPS * (cmax + 5) * pmag[q] * 1.001)
+                ++badb;
+              if (BS[q] == 0.F)
+                ++zeros;
+            }
+          std::snprintf(buf, sizeof buf,
+                        "PostsmoothingBackProjectorByBin::back_project(image, proj_data): %ld of %d voxels differ from the smoothed back projection (%ld voxels are 0) ",
+                        badb, w.nvox, zeros);
+          if (okb && badb > 0 && zeros == w.nvox)
+            known_candidate("postsmoothing-back-projector:accumulates-in-the-original-projector-and-returns-zeros",
+                            std::string(buf)
+                                + "[actual_back_project forwards to original_back_projector_ptr->back_project(viewgrams, ...), which accumulates in the "
+                                  "ORIGINAL projector's target; start_accumulating_in_new_target/get_output of the wrapper work on the wrapper's own, "
+                                  "untouched target] "
+                                + where);
+          else
+            oracle(okb && badb == 0, std::string(buf) + where);
+          g_counts["smoothing_projector_pairs"]++;
+        }
     }
 }
 
@@ -1277,22 +1856,52 @@ run_row_level(const World& w, vh::Rng& rng, bool thorough)
 
 // ------------------------------------------------------------------------------------------------ on-the-fly ray tracing
 
-// Degenerate LORs: an end point of the LOR on the boundary of the cylindrical field of view lies (to rounding) on a voxel
-// boundary in x or y.  Which voxel gets the last bit of the ray then depends on float rounding in either implementation
-// (C03 screens the same class); such bins are not compared.
+// Degenerate LORs: an end point of the LOR on the boundary of the (cylindrical or square) field of view lies (to rounding)
+// on a voxel boundary in x or y, or the LOR only just touches a corner of the square field of view.  Which voxel gets
+// the last bit of the ray then depends on float rounding in either implementation (C03 screens the same class); such
+// bins are not compared.
 static bool
-lor_end_point_on_voxel_boundary(const World& w, int seg, int view, int ax, int tang)
+lor_end_point_on_voxel_boundary(const World& w, bool cylfov, int seg, int view, int ax, int tang)
 {
   const Bin bin(seg, view, ax, tang);
   const double s = w.pdi->get_s(bin), phi = w.pdi->get_phi(bin);
   const CartesianCoordinate3D<float> vs = w.image->get_voxel_size();
   const double fov = std::min(std::min(w.xmax, -w.xmin) * (double)vs.x(), std::min(w.ymax, -w.ymin) * (double)vs.y());
-  if (std::fabs(s) >= fov * (1 + 1e-4))
-    return false; // misses the field of view in both implementations
-  const double a = std::sqrt(std::max(0., fov * fov - s * s));
-  for (int sign = -1; sign <= 1; sign += 2)
+  const double cphi = std::cos(phi), sphi = std::sin(phi);
+  double amin, amax;
+  if (cylfov)
     {
-      const double X = (s * std::cos(phi) + sign * a * std::sin(phi)) / vs.x(), Y = (s * std::sin(phi) - sign * a * std::cos(phi)) / vs.y();
+      if (std::fabs(s) >= fov * (1 + 1e-4))
+        return false; // misses the field of view in both implementations
+      amax = std::sqrt(std::max(0., fov * fov - s * s));
+      amin = -amax;
+    }
+  else
+    { // the square |X| <= fov, |Y| <= fov, as in ray_trace_one_lor / proj_Siddon
+      if (std::fabs(cphi) < 1e-3 || std::fabs(sphi) < 1e-3)
+        {
+          if (std::fabs(s) > fov * (1 + 1e-4))
+            return false;
+          if (std::fabs(std::fabs(s) - fov) <= 1e-4 * fov)
+            return true; // along an edge of the square
+          amax = fov;
+          amin = -fov;
+        }
+      else
+        {
+          const double sgs = sphi < 0 ? -1 : 1, sgc = cphi < 0 ? -1 : 1;
+          amax = std::min((fov * sgs - s * cphi) / sphi, (fov * sgc + s * sphi) / cphi);
+          amin = std::max((-fov * sgs - s * cphi) / sphi, (-fov * sgc + s * sphi) / cphi);
+          if (amin > amax + 2e-3 * vs.x())
+            return false;
+          if (amin > amax - 4e-3 * vs.x())
+            return true; // through a corner: the library's own cut-off (1e-3 voxel) decides
+        }
+    }
+  for (int e = 0; e < 2; ++e)
+    {
+      const double a = e ? amax : amin;
+      const double X = (s * cphi + a * sphi) / vs.x(), Y = (s * sphi - a * cphi) / vs.y();
       const double fx = X + 0.5 - std::floor(X + 0.5), fy = Y + 0.5 - std::floor(Y + 0.5);
       if (fx < 2e-3 || fx > 1 - 2e-3 || fy < 2e-3 || fy > 1 - 2e-3)
         return true;
@@ -1300,36 +1909,111 @@ lor_end_point_on_voxel_boundary(const World& w, int seg, int view, int ax, int t
   return false;
 }
 
+// On-the-fly ForwardProjectorByBinUsingRayTracing against forward projection through ProjMatrixByBinUsingRayTracing with the
+// same settings (1 tangential LOR, no detector-boundary correction, restrict_to_cylindrical_FOV = cylfov on both sides).
 static void
-run_on_the_fly(const World& w, vh::Rng& rng, bool thorough)
+run_on_the_fly(const World& w, vh::Rng& rng, bool thorough, bool cylfov)
 {
-  const std::string where = w.desc;
+  const std::string where = w.desc + (cylfov ? " cylfov=1" : " cylfov=0");
   if (w.blocks || w.tof || w.mashed)
     {
       g_counts["otf_skipped_geometry"]++;
       return;
     }
+  const int V = w.maxView - w.minView + 1;
   ForwardProjectorByBinUsingRayTracing otf;
+  if (!cylfov)
+    { // the setting is reachable through the parser only
+      std::istringstream is("Forward Projector Using Ray Tracing Parameters :=\nrestrict to cylindrical FOV := 0\n"
+                            "End Forward Projector Using Ray Tracing Parameters :=\n");
+      if (!otf.parse(is))
+        {
+          oracle(false, "ForwardProjectorByBinUsingRayTracing does not parse `restrict to cylindrical FOV := 0` " + where);
+          return;
+        }
+    }
+  bool threw = false;
+  std::string msg;
   try
     {
       otf.set_up(w.pdi, w.image);
     }
+  catch (std::exception& e)
+    {
+      threw = true;
+      msg = e.what();
+    }
   catch (...)
     {
+      threw = true;
+    }
+  if (V % 2 != 0)
+    { // documented restriction: has to be refused (a projector that went ahead is compared below)
+      g_counts["otf_odd_number_of_views_refused"] += threw;
+      if (threw)
+        return;
+    }
+  else if (threw)
+    {
       g_counts["otf_skipped_setup_error"]++;
+      std::fprintf(g_orc, "NOTE on-the-fly projector refused %s: %s\n", where.c_str(), msg.substr(0, 160).c_str());
       return;
     }
-  // same settings: 1 tangential LOR, cylindrical FOV, default symmetries, no detector-boundary correction
   shared_ptr<ProjMatrixByBinUsingRayTracing> pm(new ProjMatrixByBinUsingRayTracing);
   pm->set_num_tangential_LORs(1);
-  pm->set_restrict_to_cylindrical_FOV(true);
+  pm->set_restrict_to_cylindrical_FOV(cylfov);
   pm->set_use_actual_detector_boundaries(false);
   pm->enable_cache(rng.coin());
   ForwardProjectorByBinUsingProjMatrixByBin fm(pm);
   fm.set_up(w.pdi, w.image);
   Run R(w, rng);
-  char buf[256];
-  const int V = w.maxView - w.minView + 1;
+  char buf[320];
+  // Two classes of input on which the on-the-fly projector is known to differ from the matrix (repairs proposed as
+  // build/fixes/C04-1.diff, C04-2.diff).  A differing bin is attributed to a class only if it lies exactly where that
+  // defect acts; anything else stays an ORACLE-FAIL.
+  //  A: x/y-anisotropic voxels (the symmetries drop the 90-degrees operations) and views num_views/4, 3 num_views/4:
+  //     view+90 and 180-view coincide there and the dispatch takes the "plus_90" code, which exchanges x and y;
+  //  B: voxel size in z = ring spacing (1 plane per ring; proj_Siddon hard-codes 2) - all oblique segments.
+  const CartesianCoordinate3D<float> vsz = w.image->get_voxel_size();
+  const bool classA_world = std::fabs(vsz.x() - vsz.y()) > 2e-3F && V % 4 == 0;
+  const bool classB_world
+      = std::fabs(w.pdi->get_scanner_ptr()->get_ring_spacing() / vsz.z() - 2.F) > 1e-3F;
+  static const char* const keyA = "on-the-fly-raytracing:anisotropic-voxels:views-at-45-and-135-degrees";
+  static const char* const keyB = "on-the-fly-raytracing:voxel-size-z-not-half-the-ring-spacing:oblique-segments";
+  auto in_classA = [&](int seg, int view) { return classA_world && (4 * (view - w.minView) == V || 4 * (view - w.minView) == 3 * V); };
+  auto in_classB = [&](int seg, int view) { return classB_world && seg != 0; };
+  // verdict for a comparison with `bad` differing bins of which nA / nB lie in class A / B (a bin in both counts in both)
+  auto verdict = [&](long bad, long nA, long nB, long nAorB, const std::string& text) {
+    if (bad > 0 && nAorB == bad)
+      {
+        if (nA > 0)
+          known_candidate(keyA, text
+                                    + " [all differing bins are in views num_views/4, 3 num_views/4 of an image with voxel_size.x != voxel_size.y: "
+                                      "actual_forward_project takes the plus_90 routines (view + num_views/2 == num_views - view there), which exchange x and y]");
+        if (nB > 0)
+          known_candidate(keyB, text
+                                    + " [all differing bins are in oblique segments of an image whose voxel size in z is not half the ring spacing: "
+                                      "proj_Siddon hard-codes num_planes_per_physical_ring = 2 (assert compiled out)]");
+        if (nA == 0 && nB == 0)
+          oracle(false, text);
+      }
+    else
+      oracle(bad == 0, text);
+  };
+  g_counts[cylfov ? "otf_configs_cylindrical_fov" : "otf_configs_square_fov"]++;
+  g_counts[V % 4 == 0 ? "otf_configs_views_multiple_of_4" : (V % 2 == 0 ? "otf_configs_views_4k_plus_2" : "otf_configs_views_odd")]++;
+
+  // a smaller ProjData geometry for this world
+  World sw;
+  bool have_sub = false;
+  try
+    {
+      have_sub = make_sub_world(w, rng, sw);
+    }
+  catch (...)
+    {
+    }
+
   for (int rep = 0; rep < (thorough ? 4 : 2); ++rep)
     {
       const std::vector<float> x = R.rand_img(rep == 0 ? 0 : -4, 4, 20);
@@ -1363,8 +2047,8 @@ run_on_the_fly(const World& w, vh::Rng& rng, bool thorough)
         for (float v : w.read(A3))
           gmax = std::max(gmax, (double)std::fabs(v));
       }
-      long bad = 0;
-      double worst = 0;
+      // tolerance per viewgram of the set-up geometry
+      std::map<std::pair<int, int>, double> vtol;
       for (int s = w.minSeg; s <= w.maxSeg; ++s)
         for (int v = w.minView; v <= w.maxView; ++v)
           {
@@ -1372,124 +2056,232 @@ run_on_the_fly(const World& w, vh::Rng& rng, bool thorough)
             for (int a = w.aMin(s); a <= w.aMax(s); ++a)
               for (int t = w.minT; t <= w.maxT; ++t)
                 vmax = std::max(vmax, (double)std::fabs(a2[w.idx(s, v, 0, a, t)]));
-            const double tol = 1e-4 * std::max(vmax, 0.05 * gmax);
-            for (int a = w.aMin(s); a <= w.aMax(s); ++a)
-              for (int t = w.minT; t <= w.maxT; ++t)
-                {
-                  const int b = w.idx(s, v, 0, a, t);
-                  const double d = std::fabs(double(a1[b]) - a2[b]);
-                  if (d > tol && lor_end_point_on_voxel_boundary(w, s, v, a, t))
-                    {
-                      g_counts["otf_bins_not_compared_lor_end_point_on_voxel_boundary"]++;
-                      continue;
-                    }
-                  worst = std::max(worst, d);
-                  if (d > tol)
-                    ++bad;
-                }
+            vtol[std::make_pair(s, v)] = 1e-4 * std::max(vmax, 0.05 * gmax);
           }
-      std::snprintf(buf, sizeof buf, "on-the-fly ray tracing forward projector differs from the ray-tracing matrix on %ld bins (worst %.3g, data max %.3g) subset %d/%d ",
+      long bad = 0, nA = 0, nB = 0, nAB = 0;
+      double worst = 0;
+      w.for_bins([&](int s, int v, int k, int a, int t) {
+        const int b = w.idx(s, v, 0, a, t);
+        const double d = std::fabs(double(a1[b]) - a2[b]), tol = vtol[std::make_pair(s, v)];
+        if (d > tol && lor_end_point_on_voxel_boundary(w, cylfov, s, v, a, t))
+          {
+            g_counts["otf_bins_not_compared_lor_end_point_on_voxel_boundary"]++;
+            return;
+          }
+        if (d > tol)
+          {
+            ++bad;
+            nA += in_classA(s, v);
+            nB += in_classB(s, v);
+            nAB += in_classA(s, v) || in_classB(s, v);
+          }
+        if (!in_classA(s, v) && !in_classB(s, v))
+          worst = std::max(worst, d);
+      });
+      std::snprintf(buf, sizeof buf, "on-the-fly ray tracing forward projector differs from the ray-tracing matrix on %ld bins (worst outside the known classes %.3g, data max %.3g) subset %d/%d ",
                     bad, worst, gmax, i, n);
-      oracle(bad == 0, std::string(buf) + where);
+      verdict(bad, nA, nB, nAB, std::string(buf) + where);
       g_counts["otf_compared"]++;
       if (gmax > 0)
         g_counts["otf_worst_deviation_ppm_of_data_max"] = std::max<long>(g_counts["otf_worst_deviation_ppm_of_data_max"], (long)(1e6 * worst / gmax));
-      // related viewgrams over a random sub-range, through forward_project(RelatedViewgrams&, ranges)
-      shared_ptr<DataSymmetriesForViewSegmentNumbers> s1(otf.get_symmetries_used()->clone()), s2(fm.get_symmetries_used()->clone());
-      for (int g = 0; g < 5; ++g)
+
+      // the same call with a ProjData smaller than the set-up geometry: = restriction of the whole-data projection
+      if (have_sub && rep < 2)
         {
-          ViewSegmentNumbers vs(rng.range(w.minView, w.maxView), rng.range(w.minSeg, w.maxSeg));
-          if (g >= 3)
-            vs = ViewSegmentNumbers(1, 0); // for >= 8 views: a segment-0 group of 4 viewgrams (the "all symmetries 2D" code)
-          s1->find_basic_view_segment_numbers(vs);
-          const int sg = vs.segment_num();
-          int a0 = rng.range(w.aMin(sg), w.aMax(sg)), a1 = rng.range(a0, w.aMax(sg)), t0 = rng.range(w.minT, w.maxT), t1 = rng.range(t0, w.maxT);
-          if (g == 0)
+          ProjDataInMemory S1(sw.exam, sw.pdi);
+          S1.fill(3.F);
+          bool ok = true;
+          try
             {
-              a0 = w.aMin(sg);
-              a1 = w.aMax(sg);
-              t0 = w.minT;
-              t1 = w.maxT;
+              otf.forward_project(S1, *X, i, n, true);
             }
-          if (g == 3)
-            { // axial sub-range that stops before the last ring, tangential range containing 0: the class of the defect repaired
-              // in /repo by 02c0a3d12 (half-plane term above the last requested axial position) - checked strictly
-              a0 = w.aMin(sg);
-              a1 = std::max(a0, w.aMax(sg) - 1);
-              t0 = rng.range(w.minT, 0);
-              t1 = rng.range(0, w.maxT);
-            }
-          const bool prefilled = g == 4; // the viewgrams come in with values: they have to be overwritten
-          if (prefilled)
-            { // (full axial range, to keep this apart from the axial sub-range case above)
-              a0 = w.aMin(sg);
-              a1 = w.aMax(sg);
-            }
-          stir::RelatedViewgrams<float> v1 = w.pdi->get_empty_related_viewgrams(vs, s1), v2 = w.pdi->get_empty_related_viewgrams(vs, s2);
-          if (prefilled)
+          catch (...)
             {
-              v1.fill(5.F);
-              v2.fill(5.F);
+              ok = false;
             }
-          bool okn = v1.get_num_viewgrams() == v2.get_num_viewgrams();
-          long badg = 0, bad_adds = 0, bad_outside = 0;
-          if (okn)
+          long bads = 0, badm = 0, mA = 0, mB = 0, mAB = 0;
+          if (ok)
             {
-              otf.set_input(*X);
-              fm.set_input(*X);
-              otf.forward_project(v1, a0, a1, t0, t1);
-              fm.forward_project(v2, a0, a1, t0, t1);
-              stir::RelatedViewgrams<float>::const_iterator i1 = v1.begin(), i2 = v2.begin();
-              for (; i1 != v1.end(); ++i1, ++i2)
-                {
-                  okn = okn && i1->get_view_num() == i2->get_view_num() && i1->get_segment_num() == i2->get_segment_num();
-                  const double tol = 1e-4 * std::max((double)std::max(std::fabs(i2->find_max()), std::fabs(i2->find_min())), 0.05 * gmax);
-                  for (int a = w.aMin(i1->get_segment_num()); a <= w.aMax(i1->get_segment_num()); ++a)
-                    for (int t = w.minT; t <= w.maxT; ++t)
-                      {
-                        const bool inside = a >= a0 && a <= a1 && t >= t0 && t <= t1;
-                        if (std::fabs(double((*i1)[a][t]) - (*i2)[a][t]) > tol)
-                          {
-                            if (lor_end_point_on_voxel_boundary(w, i1->get_segment_num(), i1->get_view_num(), a, t))
-                              {
-                                g_counts["otf_bins_not_compared_lor_end_point_on_voxel_boundary"]++;
-                                continue;
-                              }
-                            ++badg;
-                            if (!inside)
-                              ++bad_outside;
-                            if (prefilled && inside && std::fabs(double((*i1)[a][t]) - 5. - (*i2)[a][t]) <= tol)
-                              ++bad_adds;
-                          }
-                      }
-                }
+              const std::vector<float> s1 = sw.read(S1);
+              sw.for_bins([&](int s, int v, int k, int a, int t) {
+                const int j = sw.idx(s, v, k, a, t), b = w.idx(s, v, k, a, t);
+                const double tol = vtol[std::make_pair(s, v)];
+                // outside the subset: n > 1 zeroes, n == 1 has no bin outside
+                if (std::fabs(double(s1[j]) - a1[b]) > tol)
+                  ++bads;
+                if (std::fabs(double(s1[j]) - a2[b]) > tol && !lor_end_point_on_voxel_boundary(w, cylfov, s, v, a, t))
+                  {
+                    ++badm;
+                    mA += in_classA(s, v);
+                    mB += in_classB(s, v);
+                    mAB += in_classA(s, v) || in_classB(s, v);
+                  }
+              });
             }
-          std::snprintf(buf, sizeof buf, "on-the-fly ray tracing vs matrix on related viewgrams view=%d seg=%d ax=%d..%d tang=%d..%d%s: %ld bins differ (same related set: %d) ",
-                        vs.view_num(), vs.segment_num(), a0, a1, t0, t1, prefilled ? " (viewgrams pre-filled with 5)" : "", badg, (int)okn);
-          if (okn && prefilled && badg > 0 && badg == bad_adds && bad_outside == 0)
-            known_candidate("on-the-fly-raytracing:forward_project(RelatedViewgrams)-adds-to-the-viewgrams-instead-of-overwriting",
-                            std::string(buf)
-                                + "(all equal to old value + projection): ForwardProjectorByBinUsingRayTracing accumulates with += into the viewgrams "
-                                  "passed in, the base-class contract and the matrix projector overwrite; masked in forward_project(ProjData&) by "
-                                  "get_empty_related_viewgrams "
-                                + where);
-          else
-            oracle(okn && badg == 0, std::string(buf) + where);
-          g_counts["otf_groups_compared"]++;
+          const std::string subw = sw.desc.substr(w.desc.size()) + " " + where;
+          std::snprintf(buf, sizeof buf, "on-the-fly forward projection into a ProjData smaller than the set-up geometry (subset %d/%d): %ld bins differ from the restriction of its whole-data projection",
+                        i, n, bads);
+          oracle(ok && bads == 0, std::string(buf) + subw);
+          std::snprintf(buf, sizeof buf, "on-the-fly forward projection into a ProjData smaller than the set-up geometry (subset %d/%d): %ld bins differ from the matrix projection",
+                        i, n, badm);
+          verdict(badm, mA, mB, mAB, std::string(buf) + subw);
+          g_counts["otf_smaller_projdata_compared"]++;
+        }
+      // a scaling pre-data-processor in set_input: A(2x) = 2 A(x), exactly in float
+      if (rep == 0)
+        {
+          shared_ptr<HProc> P(new HProc(HProc::scale, 2.F));
+          otf.set_pre_data_processor(P);
+          ProjDataInMemory A4(w.exam, w.pdi);
+          A4.fill(0.F);
+          otf.forward_project(A4, *X, i, n, true);
+          otf.set_pre_data_processor(shared_ptr<DataProcessor<DiscretisedDensity<3, float>>>());
+          const std::vector<float> a4 = w.read(A4);
+          long badp = 0;
+          for (int b = 0; b < w.nbins; ++b)
+            if (a4[b] != 2 * a1[b])
+              ++badp;
+          oracle(badp == 0 && P->applied == 1 && w.read_img(*X) == x,
+                 "on-the-fly projector with a scaling pre-data-processor (x2): " + std::to_string(badp) + " bins are not twice the unprocessed projection; applied "
+                     + std::to_string(P->applied) + " times " + where);
+        }
+
+      // related viewgrams through forward_project(RelatedViewgrams&, min_ax, max_ax, min_tang, max_tang) (5-argument overload),
+      // for every segment including 0
+      shared_ptr<DataSymmetriesForViewSegmentNumbers> s1(otf.get_symmetries_used()->clone()), s2(fm.get_symmetries_used()->clone());
+      // mode 0: full range; 1: random axial AND tangential sub-range; 2: random axial sub-range, all tangential positions;
+      // 3: axial sub-range that stops before the last ring with tangential range containing 0 (class of 02c0a3d12);
+      // 4: viewgrams pre-filled (full axial range)
+      auto compare_group = [&](ViewSegmentNumbers vs, int mode) {
+        const int sg = vs.segment_num();
+        int a0 = rng.range(w.aMin(sg), w.aMax(sg)), a1_ = rng.range(a0, w.aMax(sg)), t0 = rng.range(w.minT, w.maxT), t1 = rng.range(t0, w.maxT);
+        if (mode == 0)
+          {
+            a0 = w.aMin(sg);
+            a1_ = w.aMax(sg);
+            t0 = w.minT;
+            t1 = w.maxT;
+          }
+        if (mode == 2)
+          {
+            t0 = w.minT;
+            t1 = w.maxT;
+          }
+        if (mode == 3)
+          {
+            a0 = w.aMin(sg);
+            a1_ = std::max(a0, w.aMax(sg) - 1);
+            t0 = rng.range(w.minT, 0);
+            t1 = rng.range(0, w.maxT);
+          }
+        const bool prefilled = mode == 4; // the viewgrams come in with values: they have to be overwritten
+        if (prefilled)
+          { // (full axial range, to keep this apart from the axial sub-range case above)
+            a0 = w.aMin(sg);
+            a1_ = w.aMax(sg);
+          }
+        stir::RelatedViewgrams<float> v1 = w.pdi->get_empty_related_viewgrams(vs, s1), v2 = w.pdi->get_empty_related_viewgrams(vs, s2);
+        if (prefilled)
+          {
+            v1.fill(5.F);
+            v2.fill(5.F);
+          }
+        bool okn = v1.get_num_viewgrams() == v2.get_num_viewgrams();
+        long badg = 0, bad_adds = 0, bad_outside = 0, gA = 0, gB = 0, gAB = 0;
+        if (okn)
+          {
+            otf.set_input(*X);
+            fm.set_input(*X);
+            otf.forward_project(v1, a0, a1_, t0, t1);
+            fm.forward_project(v2, a0, a1_, t0, t1);
+            stir::RelatedViewgrams<float>::const_iterator i1 = v1.begin(), i2 = v2.begin();
+            for (; i1 != v1.end(); ++i1, ++i2)
+              {
+                okn = okn && i1->get_view_num() == i2->get_view_num() && i1->get_segment_num() == i2->get_segment_num();
+                const double tol = 1e-4 * std::max((double)std::max(std::fabs(i2->find_max()), std::fabs(i2->find_min())), 0.05 * gmax);
+                for (int a = w.aMin(i1->get_segment_num()); a <= w.aMax(i1->get_segment_num()); ++a)
+                  for (int t = w.minT; t <= w.maxT; ++t)
+                    {
+                      const bool inside = a >= a0 && a <= a1_ && t >= t0 && t <= t1;
+                      if (std::fabs(double((*i1)[a][t]) - (*i2)[a][t]) > tol)
+                        {
+                          if (lor_end_point_on_voxel_boundary(w, cylfov, i1->get_segment_num(), i1->get_view_num(), a, t))
+                            {
+                              g_counts["otf_bins_not_compared_lor_end_point_on_voxel_boundary"]++;
+                              continue;
+                            }
+                          ++badg;
+                          gA += in_classA(i1->get_segment_num(), i1->get_view_num());
+                          gB += in_classB(i1->get_segment_num(), i1->get_view_num());
+                          gAB += in_classA(i1->get_segment_num(), i1->get_view_num()) || in_classB(i1->get_segment_num(), i1->get_view_num());
+                          if (!inside)
+                            ++bad_outside;
+                          if (prefilled && inside && std::fabs(double((*i1)[a][t]) - 5. - (*i2)[a][t]) <= tol)
+                            ++bad_adds;
+                        }
+                    }
+              }
+          }
+        std::snprintf(buf, sizeof buf, "on-the-fly ray tracing vs matrix on related viewgrams view=%d seg=%d (%d viewgrams) ax=%d..%d tang=%d..%d%s: %ld bins differ (same related set: %d) ",
+                      vs.view_num(), vs.segment_num(), v1.get_num_viewgrams(), a0, a1_, t0, t1, prefilled ? " (viewgrams pre-filled with 5)" : "", badg, (int)okn);
+        if (okn && prefilled && badg > 0 && badg == bad_adds && bad_outside == 0)
+          known_candidate("on-the-fly-raytracing:forward_project(RelatedViewgrams)-adds-to-the-viewgrams-instead-of-overwriting",
+                          std::string(buf)
+                              + "(all equal to old value + projection): ForwardProjectorByBinUsingRayTracing accumulates with += into the viewgrams "
+                                "passed in, the base-class contract and the matrix projector overwrite; masked in forward_project(ProjData&) by "
+                                "get_empty_related_viewgrams "
+                              + where);
+        else if (!okn)
+          oracle(false, std::string(buf) + where);
+        else
+          verdict(badg, bad_outside == 0 ? gA : 0, bad_outside == 0 ? gB : 0, bad_outside == 0 ? gAB : 0, std::string(buf) + where);
+        g_counts["otf_groups_compared"]++;
+        g_counts["otf_groups_of_" + std::to_string(v1.get_num_viewgrams()) + (sg == 0 ? "_viewgrams_segment_0" : "_viewgrams_oblique")]++;
+      };
+      for (int sg = 0; sg <= w.maxSeg; ++sg)
+        {
+          std::set<std::pair<int, int>> done;
+          std::vector<int> views = { 0, 1, V / 4, V / 2, rng.range(w.minView, w.maxView), rng.range(w.minView, w.maxView) };
+          bool first = true;
+          for (int v : views)
+            {
+              ViewSegmentNumbers vs(std::min(std::max(v, w.minView), w.maxView), rng.coin() ? sg : -sg);
+              s1->find_basic_view_segment_numbers(vs);
+              if (!done.insert(std::make_pair(vs.view_num(), vs.segment_num())).second)
+                continue;
+              compare_group(vs, 0);
+              compare_group(vs, 1);
+              if (rep == 0 || first)
+                compare_group(vs, 2);
+              first = false;
+            }
+          // for >= 8 views: view 1 is in a group of 4 (segment 0: the "all symmetries 2D" code) or 8 viewgrams
+          ViewSegmentNumbers vs1(std::min(1, w.maxView), sg);
+          s1->find_basic_view_segment_numbers(vs1);
+          compare_group(vs1, 3);
+          compare_group(vs1, 4);
         }
     }
 }
 
 // larger cylindrical non-TOF geometries for the on-the-fly comparison only (no model involved): enough views for every
-// symmetry case of the hand-optimised Siddon code (1, 2, 4 and 8 related viewgrams, 2D and oblique segments)
+// symmetry case of the hand-optimised Siddon code (1, 2, 4 and 8 related viewgrams, 2D and oblique segments); numbers of
+// views that are multiples of 4, of the form 4k+2, and odd (refused); odd and even image sizes; 2R-3 / 2R-1 / 2R+1 planes;
+// z origin off by whole planes; x/y-anisotropic voxels; voxel z = ring spacing instead of half of it
 static bool
 make_otf_world(World& w, vh::Rng& rng, int k)
 {
   w = World();
-  static const int Ns[] = { 16, 24, 32, 20, 28, 40 };
-  const int N = Ns[k % 6];
-  const int R = rng.range(2, 4);
-  const int span = (k % 3 == 2) ? 3 : 1;
+  static const int Ns[] = { 16, 24, 32, 20, 28, 40, 18, 12, 36, 16 };
+  static const int Zs[] = { 0, 1, 0, -2, 0, 1, 0, -2, 0, 1 };
+  const int c = k % 10;
+  const int N = Ns[c];
+  const bool coarse_z = c == 9; // voxel z = ring spacing (one plane per ring)
+  const bool aniso = c == 2 || c == 7 || (k >= 10 && rng.range(0, 4) == 0);
+  int R = rng.range(2, 4);
+  if (coarse_z)
+    R = 3; // the ray-tracing matrix wants an odd number of planes for a z origin that is a multiple of the plane spacing
+  const int span = (c % 3 == 2 && !coarse_z) ? 3 : 1;
   shared_ptr<Scanner> sc = vh::make_scanner(N, R, -1);
   const int ntang = rng.range(N / 2 - 3, N / 2 - 1);
   w.pdi = vh::make_pdi(sc, span, R - 1, N / 2, ntang, false, 0);
@@ -1497,14 +2289,23 @@ make_otf_world(World& w, vh::Rng& rng, int k)
   const int nxy = rng.range(7, 15);
   static const float fracs[] = { 0.5F, 0.7F, 0.85F, 1.F };
   const float zoom = sc->get_default_bin_size() * nxy / (2.F * sc->get_inner_ring_radius() * fracs[rng.range(0, 3)]);
-  w.image = vh::make_image(*w.pdi, zoom, nxy, 2 * R - 1);
+  int nz = 2 * R - 1;
+  if (k % 3 == 1 && R > 2)
+    nz = 2 * R - 3;
+  if (k % 3 == 2)
+    nz = 2 * R + 1;
+  if (coarse_z)
+    nz = R;
+  const int zorg = Zs[c];
+  w.image = make_grid(*w.pdi, zoom, aniso ? zoom * (rng.coin() ? 1.25F : 0.8F) : zoom, nxy, nz, zorg, coarse_z ? 0.5F : 1.F);
   w.exam.reset(new ExamInfo);
   w.exam->imaging_modality = ImagingModality::PT;
   w.image->set_exam_info(*w.exam);
   w.finish();
   std::ostringstream d;
-  d << "otf-world cyl N=" << N << " R=" << R << " span=" << span << " views=" << N / 2 << " tang=" << ntang << " nxy=" << nxy
-    << " voxel=" << w.image->get_voxel_size().x();
+  d << "otf-world cyl N=" << N << " R=" << R << " span=" << span << " views=" << N / 2 << " tang=" << ntang << " nxy=" << nxy << " nz=" << nz
+    << " voxel=" << w.image->get_voxel_size().x() << "," << w.image->get_voxel_size().y() << "," << w.image->get_voxel_size().z()
+    << " zorigin_planes=" << zorg;
   w.desc = d.str();
   return true;
 }
@@ -1582,15 +2383,17 @@ main(int argc, char** argv)
             }
         }
       run_row_level(w, rng, thorough);
-      run_on_the_fly(w, rng, thorough);
+      run_on_the_fly(w, rng, thorough, true);
+      run_on_the_fly(w, rng, thorough, false);
     }
-  for (int k = 0; k < (thorough ? 36 : 6); ++k)
+  for (int k = 0; k < (thorough ? 40 : 10); ++k)
     {
       World w;
       try
         {
           make_otf_world(w, rng, k);
-          run_on_the_fly(w, rng, thorough);
+          run_on_the_fly(w, rng, thorough, true);
+          run_on_the_fly(w, rng, thorough, false);
           g_counts["otf_worlds"]++;
         }
       catch (std::exception& e)
